@@ -83,3 +83,21 @@ Check C08_module_no_panic_when_off :
     o_resolve_type (e_opts E) = false ->
     module_shape m = true -> gram PExpr m = true ->
     panicked (snd (transform_module E (hook_call E) (hook_declarator E) (collect_ts_decls E subs) m)) = false.
+
+(* non-vacuity: the module of C07_module_nonvacuous (JSX in an expression in JSX in an arrow body,
+   an element-valued attribute) is grammatical and its transformation ends without the flag *)
+Example C08_module_nonvacuous :
+  let E := {| e_opts := {| o_transform_on := false; o_optimize := true; o_merge_props := true;
+                           o_object_slots := true; o_pragma := None; o_resolve_type := false; o_npat := 0 |};
+              e_unres := 1; e_matches := []; e_html := [s_ "div"]; e_svg := []; e_comments := [] |} in
+  let x := Ident (s_ "x") 2 false in
+  let inner := JsxE (Ident (s_ "b") 1 false) [] true nnull [] nnull in
+  let comp := JsxE (Ident (s_ "A") 2 false) [] false nnull [JExprC (Call false 0 (Ident (s_ "f") 1 false) [] nnull)] nnull in
+  let outer := JsxE (Ident (s_ "div") 1 false) [JAttr (IdName (s_ "icon")) inner; JAttr (IdName (s_ "title")) (Str (s_ "t") nnull)]
+                    false nnull [JExprC (Cond x comp Null); JText (s_ "t") (s_ "t")] nnull in
+  let stmt := gobj "ExpressionStatement" [fld "expression" (Arrow 3 [] outer false false nnull nnull)] in
+  let m := NObj [Field (s_ "type") (NScalar (JStr (s_ "Module"))); Field (s_ "body") (NArr [stmt]);
+                 Field (s_ "interpreter") (NScalar JNull)] in
+  module_shape m = true /\ gram PExpr m = true
+  /\ panicked (snd (transform_module E (hook_call E) (hook_declarator E) (collect_ts_decls E subs) m)) = false.
+Proof. vm_compute. repeat split; reflexivity. Qed.
